@@ -3,6 +3,7 @@
    quantities in floats (modelled, not verified: the correspondence uses speeds and times for which
    the float computation is exact).  Property theorems only. *)
 From TV Require Import Base Model.Wiring Model.Ticker Model.Master Proofs.MasterP.
+From TV Require Model.Component Model.Sim Model.SimTime Proofs.SimTimeP.
 Open Scope Z_scope.
 
 (* never early: whenever the timer starts the tick for simulation time [when], real time has
@@ -56,3 +57,16 @@ Qed.
 Example C12_nonvacuous : due_real 2 1 {| mp := PIdle; mw := []; ma_t := 100; ma_r := 1000; m_err := false |} 300 = 1100
                          /\ stamp 1 2 {| mp := PIdle; mw := []; ma_t := 100; ma_r := 1000; m_err := false |} 1007 = 103.
 Proof. vm_compute. split; reflexivity. Qed.
+
+(* whole simulations: without interrupts the speed only decides how FAR a run gets, never what the devices observe.
+   Whatever the real-time master of Model/Sim.v does at any speed num/den in any number of steps up to any real time,
+   for devices that never ask to be called back in the past, is what the master in simulation time (Model/SimTime.v, on
+   which the run theorems of C09 and C10 are stated) does in some number j of ticks, under every horizon from the time
+   of the last tick on: same final state, same updates in the same order with the same times and inputs *)
+Theorem C12_speed_only_decides_how_far : forall (cfg : TV.Model.Sim.config) (devf : TV.Model.Sim.devfun),
+  (forall c n t i w, snd (devf c n t i) = Some w -> t <= w) ->
+  forall (fuel : nat) (initial t_end num den : Z) (steps : nat),
+  let m := TV.Model.Sim.simulate_full cfg devf num den fuel steps initial [] [] t_end in
+  exists j, forall h, TV.Model.Sim.m_tprev m <= h ->
+    fst (TV.Model.SimTime.sim_run cfg devf j fuel initial h) = (TV.Model.Sim.m_s m, TV.Model.Sim.m_obs m).
+Proof. exact TV.Proofs.SimTimeP.master_any_speed_is_sim_prefix. Qed.
